@@ -2,6 +2,7 @@ package props
 
 import (
 	"bytes"
+	"encoding/gob"
 	"fmt"
 	"net"
 	"strings"
@@ -34,6 +35,19 @@ type c03State struct {
 	trail      bool // Raw still carries bytes after the declared length (decoded start)
 	ops        []string
 	aliasAdded bool
+	// bystanders are other messages of the same program (built earlier, or decoded from the same gob value): building
+	// on m must leave them - bytes, fields and attribute values - exactly as they were
+	bystanders []c03Bystander
+}
+
+type c03Bystander struct {
+	what string
+	m    *stun.Message
+	view msgView
+}
+
+func (s *c03State) addBystander(what string, m *stun.Message) {
+	s.bystanders = append(s.bystanders, c03Bystander{what, m, viewOf(m)})
 }
 
 func compat(t uint16) uint16 {
@@ -66,6 +80,13 @@ func (s *c03State) check() bool {
 	m := s.m
 	raw := m.Raw
 	s.c.Count("invariant_checks", 1)
+	for _, b := range s.bystanders {
+		if d := b.view.diff(viewOf(b.m)); d != "" {
+			s.fail("bystander-changed", fmt.Sprintf("%s changed although only the message under construction was operated on: %s", b.what, d))
+
+			return false
+		}
+	}
 	if len(raw) < 20 {
 		s.fail("short-raw", fmt.Sprintf("len(Raw)=%d", len(raw)))
 
@@ -247,7 +268,7 @@ func randIP(r *gen.Rand) net.IP {
 // step applies one random building operation. Returns false to stop the sequence.
 func (s *c03State) step() bool {
 	r, m := s.r, s.m
-	switch r.Intn(30) {
+	switch r.Intn(31) {
 	case 0, 1, 2, 3: // Add
 		t := r.AttrType()
 		n := r.ValueLen(3000)
@@ -665,6 +686,20 @@ func (s *c03State) step() bool {
 			return false
 		}
 		s.attrs, s.lead, s.trail, s.aliasAdded = newAttrs, 0, false, alias
+	case 29: // some other message is built meanwhile (its buffer grows several times)
+		other := new(stun.Message)
+		if r.Bool() {
+			other = stun.New()
+		}
+		other.WriteHeader()
+		k := 1 + r.Intn(6)
+		s.op(fmt.Sprintf("other message: Add x%d", k))
+		for ; k > 0; k-- {
+			other.Add(stun.AttrType(0x7d00+k), bytes.Repeat([]byte{0xD0 + byte(k)}, r.PickInt([]int{3, 30, 100, 120, 300, 1000, 2000})))
+		}
+		if r.Bool() {
+			s.addBystander("the other message built meanwhile", other)
+		}
 	case 25: // retag an attribute in the struct, then Encode: the wire must carry the new type
 		if len(s.attrs) == 0 {
 			return true
@@ -733,7 +768,16 @@ func c03(c *core.Ctx) {
 	maxOps := int(c.N(12, 40))
 	c.Section("sequences", c.N(20000, 3000000), func(i int64, r *gen.Rand) {
 		s := &c03State{c: c, r: r}
-		switch r.Intn(4) {
+		if r.Chance(1, 3) {
+			// a message built earlier in the same program, with several buffer growths behind it
+			early := new(stun.Message)
+			early.WriteHeader()
+			for k := 2 + r.Intn(6); k > 0; k-- {
+				early.Add(stun.AttrType(0x7c00+k), bytes.Repeat([]byte{0xC0 + byte(k)}, r.PickInt([]int{5, 40, 90, 130, 500, 1100})))
+			}
+			s.addBystander("a message built earlier", early)
+		}
+		switch r.Intn(6) {
 		case 0: // Build on a fresh message
 			s.m = new(stun.Message)
 			s.op("new;Build()")
@@ -759,6 +803,28 @@ func c03(c *core.Ctx) {
 			s.m = &stun.Message{Raw: buf[:r.Intn(len(buf))]}
 			s.op("poisoned;Build()")
 			_ = s.m.Build()
+		case 4: // two messages received in ONE gob value; the first one is built upon, the second must not notice
+			var buf bytes.Buffer
+			a, b := r.Spec(4, 60), r.Spec(4, 60)
+			src := []stun.Message{{Raw: a.Wire()}, {Raw: b.Wire()}}
+			if err := gob.NewEncoder(&buf).Encode(src); err != nil {
+				fatalHarness("C03 gob encode: " + err.Error())
+			}
+			var got []stun.Message
+			if err := gob.NewDecoder(&buf).Decode(&got); err != nil || len(got) != 2 {
+				c.Violate("start-decode", "start-decode:gob", map[string]interface{}{"err": fmt.Sprint(err)})
+
+				return
+			}
+			s.m = &got[0]
+			rm, _ := ref.Parse(a.Wire())
+			s.op(fmt.Sprintf("gob.Decode([2]Message)(%dB,%d attrs)", len(a.Wire()), len(rm.TLVs)))
+			s.method, s.class, s.lead, s.tid = rm.Method, rm.Class, rm.Lead2, rm.TID
+			w := a.Wire()
+			for _, t := range rm.TLVs {
+				s.attrs = append(s.attrs, shAttr{typ: t.Type, wire: t.Wire, val: append([]byte(nil), w[t.Off:t.Off+t.Len]...), built: true})
+			}
+			s.addBystander("the second message of the same gob value", &got[1])
 		default: // a decoded message
 			spec := r.Spec(6, 80)
 			wire := r.WireDirty(spec)
